@@ -154,6 +154,14 @@ fn reject_signatures(text: &str, reference: &r::TypeSystemDocument, message: &st
 
 type Reference = Result<r::TypeSystemDocument, crate::reference::parser::SyntaxError>;
 
+/// "valid SDL" for C30 is the June 2018 type-system grammar plus the four additions of the October 2021
+/// edition that concern SDL (C30 does not name an edition, and the parser has explicit code for each of
+/// them: `repeatable`, `implements` on interfaces, the VARIABLE_DEFINITION location, a description on
+/// `schema`). Everything else in `Relaxations` stays a deviation.
+fn valid_sdl() -> Relaxations {
+    Relaxations { interface_implements_interfaces: true, repeatable_directive_definition: true, directive_location_variable_definition: true, description_on_schema_definition: true, ..Relaxations::none() }
+}
+
 /// "valid SDL": the grammar (and, in `check_entry`, the one mirrored validation rule)
 fn reference(text: &str, rx: &Relaxations) -> Reference {
     parse_type_system_document(text, rx).map(|mut d| {
@@ -164,12 +172,12 @@ fn reference(text: &str, rx: &Relaxations) -> Reference {
 
 /// Both entry points on one text (the strict reference parse is shared).
 pub fn check_both(text: &str) -> Vec<TextOutcome> {
-    let strict = reference(text, &Relaxations::none());
+    let strict = reference(text, &valid_sdl());
     vec![check_entry(text, Entry::ParseSchema, strict.clone()), check_entry(text, Entry::ParseSchemaExtensions, strict)]
 }
 
 pub fn check(text: &str, entry: Entry) -> TextOutcome {
-    check_entry(text, entry, reference(text, &Relaxations::none()))
+    check_entry(text, entry, reference(text, &valid_sdl()))
 }
 
 fn check_entry(text: &str, entry: Entry, strict: Reference) -> TextOutcome {
@@ -181,7 +189,10 @@ fn check_entry(text: &str, entry: Entry, strict: Reference) -> TextOutcome {
             return out;
         }
     };
-    let reference = |rx: &Relaxations| reference(text, rx);
+    let reference = |rx: &Relaxations| reference(text, &rx.plus(valid_sdl()));
+    // An integer literal outside i64 is outside the supported subset (GraphQLConstantValue::Int is an i64; the
+    // grammar has no range): such a text may be rejected, but must not be accepted with the literal dropped.
+    let big_int = has_int_outside_i64(text);
     out.reference_accepts = strict.is_ok();
     out.implementation_accepts = parsed.is_ok();
     match (strict, parsed) {
@@ -196,6 +207,7 @@ fn check_entry(text: &str, entry: Entry, strict: Reference) -> TextOutcome {
                         out.violations.push((tree_signature("tree", &d), format!("{}: the tree differs from the reference at {}: reference {} / parser {} ({})", entry.name(), d.path, d.reference, d.implementation, relay_says(text)), 0));
                     }
                 }
+                (Err(_), None, true) if big_int => {}
                 (Err(message), None, true) => {
                     let sigs = reject_signatures(text, &reference, &message);
                     let rank = (sigs.len() > 1) as u8;
@@ -218,7 +230,7 @@ fn check_entry(text: &str, entry: Entry, strict: Reference) -> TextOutcome {
                     let together = if names.len() > 1 { format!(" (together with {:?})", names.iter().filter(|m| m != &n).collect::<Vec<_>>()) } else { String::new() };
                     out.violations.push((
                         format!("accepts:{n}"),
-                        format!("{}: accepts a text the June 2018 grammar rejects (at token {}, in {}, found {}); named deviation: {n}{together} ({})", entry.name(), e.token_index, e.production, e.found, relay_says(text)),
+                        format!("{}: accepts a text the SDL grammar rejects (at token {}, in {}, found {}); named deviation: {n}{together} ({})", entry.name(), e.token_index, e.production, e.found, relay_says(text)),
                         (names.len() > 1 || outside.is_some()) as u8,
                     ));
                 }
